@@ -610,8 +610,56 @@ def rule_i(ctx):
          f.loc, '; '.join(problems) or f'only {n} element loops found')
 
 
+def rule_j(ctx):
+  """A full override of `is_compatible` keeps the refusal the base method makes before it
+  dispatches: a spec that does not accept None is not compatible with one that does.  On
+  every path of the override that returns True (or the result of anything but
+  super().is_compatible), a test reading `is_noneable` has been passed - unless the
+  override accepts every spec (Any) or decides for a frozen other by its single value."""
+  idx = ctx.index
+  base_f = idx.func(VS + 'ValueSpecBase.is_compatible')
+  if not any(isinstance(n, ast.Attribute) and n.attr == 'is_noneable' for n in ast.walk(base_f.node)):
+    raise AnalysisError('ValueSpecBase.is_compatible: the None refusal vanished')
+  n = 0
+  for c in idx.all_classes():
+    if not c.fq.startswith(VS) or c.fq == VS + 'ValueSpecBase':
+      continue
+    m = c.methods.get('is_compatible')
+    if m is None or VS + 'ValueSpecBase' not in idx.mro(c.fq):
+      continue
+    g = C.cfg_of(m.node)
+    rets = [k for k in g.nodes if k.kind == 'return' and k.ast.value is not None]
+    # accepts everything?
+    if all(isinstance(k.ast.value, ast.Constant) and k.ast.value.value is True for k in rets):
+      ctx.ob('C04.j', f'{c.name}.is_compatible#none', True, 'the override accepts every spec (None included)', m.loc)
+      n += 1
+      continue
+    none_tests = {k.id for k in g.nodes if k.kind == 'test' and any(
+        isinstance(x, ast.Attribute) and x.attr == 'is_noneable' for x in ast.walk(k.ast))}
+    frozen_tests = {k.id for k in g.nodes if k.kind == 'test' and any(
+        isinstance(x, ast.Attribute) and x.attr == 'frozen' for x in ast.walk(k.ast))}
+    seen, _ = g.reach(g.entry, blocked_nodes=none_tests | frozen_tests, follow_exc=False)
+    bad = []
+    for k in rets:
+      v = k.ast.value
+      if isinstance(v, ast.Constant) and v.value is False:
+        continue
+      if isinstance(v, ast.Call) and (A.call_name(v) or '') == 'super().is_compatible':
+        continue
+      if k.id in seen:
+        bad.append(f'line {k.lineno}: `return {A.unparse(v, 40)}`')
+    n += 1
+    ctx.ob('C04.j', f'{c.name}.is_compatible#none', not bad,
+           'the override refuses a None-accepting other when it does not accept None itself, before it can answer True',
+           m.loc, '; '.join(bad) + ' is reached with `is_noneable` never consulted: Union([Int(), Str()]).is_compatible('
+           'Union([Int(), Str()], is_noneable=True)) is True although only the second accepts None')
+  if n < 3:
+    raise AnalysisError(f'C04.j: only {n} is_compatible overrides found')
+
+
 def run(ctx):
   ctx.consult(*FILES)
+  rule_j(ctx)
   rule_i(ctx)
   from sa.rejections import REJECTIONS as _REJ
   S.rejection_census_obligations(ctx, 'C04.r', _REJ['C04'], floor=40)
